@@ -14,7 +14,7 @@ META = dict(
            "symbolic length 0..3; shapes of rank <= 2 with extents 0..3",
     configs="35 condition expressions (all stock conditions on int and float, pane.types aliases, val_range with concrete thresholds "
             "{-1,-0.5,0,0.5,1,3,5}, & | ~ all any to depth 3, several conditions in one Annotated); 7 length conditions; conditions on "
-            "element types in List/Dict/Optional/Tuple; raising predicates x 6 exception classes x 5 embeddings",
+            "element types in List/Dict/Optional/Tuple; raising predicates x 6 exception classes x 5 embeddings; conditions inside the field types of plain and generic dataclasses",
     stubs=["numpy hidden (sys.modules['numpy'] = None) for the broadcastability obligation: pane's pure-python fallback is the subject"],
     outside=["thresholds are concrete (a symbolic threshold is realised by Condition.__hash__ when Annotated[...] is built)",
              "numpy-backed shape()/broadcastable() on real arrays (C boundary)"],
